@@ -68,7 +68,7 @@ def build(case):
     return A
 
 
-def dtype_variants_agree(REC, prop, fname, f, X, args=(), kwargs=None, exact=True):
+def dtype_variants_agree(REC, prop, fname, f, X, args=(), kwargs=None, exact=True, matrix=False):
     """Binary / count matrices are naturally stored as bool or integer arrays.  This harness feeds float64 by
     convention; here the same VALUES are passed in other dtypes: whenever the routine returns for them, the result
     must be what it returns for float64 (a routine that raises for a dtype is not judged)."""
@@ -97,6 +97,32 @@ def dtype_variants_agree(REC, prop, fname, f, X, args=(), kwargs=None, exact=Tru
             continue
         REC.check(prop, fname, 'dtype_independent', _same_struct(ref, got, 0.0 if (exact and dt is not np.float32) else (1e-5 if dt is np.float32 else 1e-9)),
                   {'X': X, 'dtype': str(np.dtype(dt)), 'float64_result': ref, 'result': got, 'args': list(args)}, ('dtype:' + str(np.dtype(dt)),))
+    if matrix:
+        matrix_variant_agrees(REC, prop, fname, f, X, args, kwargs)
+
+
+def matrix_variant_agrees(REC, prop, fname, f, X, args=(), kwargs=None):
+    """scipy.sparse's .todense() hands out np.matrix, for which `*` is the matrix product and a row keeps two axes:
+    whenever the routine returns for it, the result must be the ndarray result (up to reshaping)"""
+    kwargs = kwargs or {}
+    try:
+        ref = f(np.asarray(X, dtype=float).copy(), *args, **kwargs)
+    except CaseTimeout:
+        raise
+    except Exception:  # noqa
+        return
+    import warnings
+    try:
+        with warnings.catch_warnings():
+            warnings.simplefilter('ignore')
+            got = f(np.asmatrix(np.asarray(X, dtype=float).copy()), *args, **kwargs)
+    except CaseTimeout:
+        raise
+    except Exception:  # noqa
+        REC.skip(prop, fname, 'matrix_type_independent')
+        return
+    REC.check(prop, fname, 'matrix_type_independent', _same_flat(ref, got, 1e-9),
+              {'X': X, 'ndarray_result': ref, 'result': got, 'args': list(args)}, ('np.matrix',))
 
 
 def _same_struct(a, b, rtol):
@@ -243,3 +269,27 @@ def _same_flat(a, b, rtol):
     if a.size != b.size:
         return False
     return close(a.ravel(), b.ravel(), rtol=rtol, atol=1e-12)
+
+
+def degenerate_sizes(REC, prop, bct, specs):
+    """The graph with no nodes and the single isolated node are graphs.  specs: list of (function name, extra
+    positional arguments).  The routine must return, and every array it returns must have only axes of length n
+    (scalars are free) -- no oracle needed, nothing else is possible."""
+    for n in (0, 1):
+        for fname, extra in specs:
+            A = np.zeros((n, n))
+            try:
+                res = getattr(bct, fname)(A, *extra)
+            except CaseTimeout:
+                raise
+            except Exception as e:  # noqa
+                REC.check(prop, fname, 'degenerate_size', False, {'n': n, 'exception': repr(e)[:200], 'extra': list(extra)}, ('n=%d' % n,))
+                continue
+            outs = res if isinstance(res, tuple) else (res,)
+            ok = True
+            for o in outs:
+                if isinstance(o, (list, tuple)):
+                    continue
+                sh = np.shape(o)
+                ok = ok and all(d == n for d in sh)
+            REC.check(prop, fname, 'degenerate_size', bool(ok), {'n': n, 'result': [np.asarray(o) for o in outs if not isinstance(o, (list, tuple))], 'extra': list(extra)}, ('n=%d' % n,))
